@@ -3,6 +3,8 @@
                          S:k:v Set   T:k:v SetToTop   U:k:s Update(append s)   P:s Map(append s)
                          F:k:s Map(append s, callback fails at key k)   G:k Get   H:k Has   L Len
                          E Each   R EachReverse   M MarshalJSON
+                         X:k Each, callback fails at key k   Y:k EachReverse, callback fails at key k
+                         W:v Each, callback fails at the first value v   N:k Find(key = k)   V:v Find(value = v)
    oset <init> <ops>   init = "-" or k1/k2/... (NewStringSet(k1,k2,...)); ops: A:k Add  H:k Has  L Len  D Data
    Output: the observable result of every call, joined by ';'. *)
 open Model
@@ -16,6 +18,9 @@ let obs_s = function
   | BGet (Some v) -> "some:" ^ hex_of_bytes v
   | BBool b -> bool_s b
   | BLen n -> string_of_int (int_of_nat n)
+  | BVisit (kvs, st) -> (if st then "stop:" else "full:") ^ "[" ^ Stdlib.String.concat "|" (Stdlib.List.map (fun (k, v) -> hex_of_bytes k ^ "=" ^ hex_of_bytes v) kvs) ^ "]"
+  | BFound None -> "notfound"
+  | BFound (Some (k, v)) -> "found:" ^ hex_of_bytes k ^ "=" ^ hex_of_bytes v
   | BPairs kvs -> "[" ^ Stdlib.String.concat "|" (Stdlib.List.map (fun (k, v) -> hex_of_bytes k ^ "=" ^ hex_of_bytes v) kvs) ^ "]"
 
 let parse_bcmd s =
@@ -30,6 +35,11 @@ let parse_bcmd s =
   | ["L"] -> CLen
   | ["E"] -> CEach
   | ["R"] -> CEachReverse
+  | ["X"; k] -> CEachStopAt (bytes_of_hex k)
+  | ["Y"; k] -> CEachReverseStopAt (bytes_of_hex k)
+  | ["W"; v] -> CEachStopVal (bytes_of_hex v)
+  | ["N"; k] -> CFindKey (bytes_of_hex k)
+  | ["V"; v] -> CFindVal (bytes_of_hex v)
   | ["M"] -> CMarshal
   | _ -> failwith ("bad op " ^ s)
 
